@@ -261,8 +261,8 @@ def rule_r11_sig(sig, counts):
 
 
 def rule_r5_body(body, counts):
-    """R5: statement-position `E.iter().for_each(|x| { B });` -> `for x in E.iter() { B }`."""
-    pat = re.compile(r'(?P<ind>^[ \t]*)(?P<e>[A-Za-z_][\w\.]*?)\.iter\(\)\.for_each\(\|(?P<x>\w+)\|\s*\{', re.M)
+    """R5: statement-position `E.iter().for_each(|x| { B });` -> `for x in E.iter() { B }` (also `E.keys()`)."""
+    pat = re.compile(r'(?P<ind>^[ \t]*)(?P<e>[A-Za-z_][\w\.]*?)\.(?P<it>iter|keys)\(\)\.for_each\(\|(?P<x>\w+)\|\s*\{', re.M)
     while True:
         m = pat.search(body)
         if not m:
@@ -277,7 +277,7 @@ def rule_r5_body(body, counts):
         inner = body[open_idx + 1:close_idx]
         if re.search(r'\b(return|break|continue)\b', re.sub(r'//.*', '', inner)):
             raise ExtractError('R5: closure body contains return/break/continue')
-        body = (body[:m.start()] + m.group('ind') + 'for %s in %s.iter() {' % (m.group('x'), m.group('e'))
+        body = (body[:m.start()] + m.group('ind') + 'for %s in %s.%s() {' % (m.group('x'), m.group('e'), m.group('it'))
                 + inner + '}' + tail[mt.end():])
         counts['R5'] = counts.get('R5', 0) + 1
     return body
@@ -579,6 +579,20 @@ def pass_ensures(base_name):
     return '\n'.join(out)
 
 
+def depth_ok(tl, a, b):
+    """lines a..b-1 of tl leave at least one bracket open (so line b is inside the statement that starts at line a), or a == b"""
+    if a == b:
+        return True
+    depth = 0
+    for li in range(a, b):
+        for ch in re.sub(r'//.*', '', tl[li]):
+            if ch in '([{':
+                depth += 1
+            elif ch in ')]}':
+                depth -= 1
+    return depth > 0
+
+
 def rule_blockcall(body, argstr, text, fname, rel, qual, counts, info, at_line=None):
     """R8c: the body of the loop that a `//@block ... loopbody=` directive proves separately is replaced, in the enclosing
     function, by the call of that block given in the section text. Checked mechanically: the block exists, is cut from this
@@ -625,8 +639,29 @@ def rule_blockcall(body, argstr, text, fname, rel, qual, counts, info, at_line=N
         tl = tail.split('\n')
         use = [i for i, l in enumerate(tl) if re.search(r'\b%s\b' % re.escape(v), re.sub(r'//.*', '', l))]
         if use:
-            ind2 = re.match(r'\s*', tl[use[0]]).group(0)
-            tl.insert(use[0], ind2 + ms[0].strip() + ' // [R8c] re-bound')
+            # the re-binding goes in front of the STATEMENT that holds the first use (the use may be inside a multi-line expression)
+            at = use[0]
+            depth = 0
+            stmt = 0
+            prev_end = True
+            for li in range(use[0] + 1):
+                code = re.sub(r'//.*', '', tl[li])
+                if depth == 0 and code.strip():
+                    stmt_candidate = li
+                    if li == 0 or prev_end:
+                        stmt = li
+                for ch in code:
+                    if ch in '([{':
+                        depth += 1
+                    elif ch in ')]}':
+                        depth -= 1
+                if code.strip():
+                    prev_end = depth <= 0 and code.rstrip()[-1:] in ';}{'
+                    if depth < 0:
+                        depth = 0
+            at = stmt if depth_ok(tl, stmt, use[0]) else use[0]
+            ind2 = re.match(r'\s*', tl[at]).group(0)
+            tl.insert(at, ind2 + ms[0].strip() + ' // [R8c] re-bound')
             tail = '\n'.join(tl)
     counts['R8c'] = counts.get('R8c', 0) + 1
     info.setdefault('blockcalls', []).append({'block': bname, 'replaced_lines': inner.count('\n') + 1, 'rebound': opts.get('rebind', '')})
